@@ -48,6 +48,7 @@ POOL_TEXT = {
     "pass_eps": "S : A A # 1 ; A : a # 0 | # e",
     "pass_eps2": "S : B # 0 ; B : C D # 1 ; C : c # 0 | # ce ; D : d # dd (0) | # de",
     "pass_eps3": "S : a B C # top (1 2) ; B : C C # 0 ; C : # ce 2 | c # 0 | B b # bb (0)",
+    "overlap_nullable": "S : b A y # s1 (1) | A z # s2 (0) ; A : B N c # a (0 1) ; B : b # b1 | b b # b2 ; N : # ne | n # 0",
     "if_stmt": "P : P T # seq (0 1) | T # 0 ; T : i c T # if (2) | i c T e T # ife (2 4) | x ';' # x | '{' P '}' # 1",
 }
 
@@ -153,6 +154,129 @@ def context_chain_grammar(rng):
     rng.shuffle(defs)
     # the start rule must come first
     return Grammar(terms, rules[:1] + defs[: len(defs) // 2] + rules[1:] + defs[len(defs) // 2:])
+
+
+def item_list_grammar(rng):
+    """A list (left or right recursive) of short terminated items; the item kinds share body nonterminals, some kinds
+    are ambiguous (same strings through a unit rule or under two node names), bodies may overlap in length
+    (`b' | `b b') and be followed by a nullable symbol.  Comes with its own input generator: sequences of 2-5 items
+    with repetitions, i.e. inputs made of repeated fragments -- what makes Earley sets and goto-cache entries
+    recur -- sometimes with one edit."""
+    leads = ["x", "y", "z"][:rng.randrange(2, 4)]
+    terms = [(l, ord(l)) for l in leads] + [("b", 98), ("c", 99), ("';'", 59)]
+    use_n = rng.random() < 0.5
+    if use_n:
+        terms.append(("n", 110))
+    rules = []
+    if rng.random() < 0.5:
+        rules += [Rule("L", ["I"], None, 0, [0]), Rule("L", ["I", "L"], "l", 1, [0, 1])]
+    else:
+        rules += [Rule("L", ["L", "I"], "l", 1, [0, 1]), Rule("L", ["I"], None, 0, [0])]
+    used = set()
+    for i, l in enumerate(leads):
+        nalt = 2 if rng.random() < 0.5 else 1
+        r0 = rng.random()
+        if nalt == 2 and r0 < 0.45:
+            bodies = ["X", "Y"]                  # the same strings directly and through the unit rule Y : X
+        elif r0 < 0.8:
+            bodies = rng.sample(["X", "Y", "B"], nalt)
+        else:
+            bodies = [rng.choice(["X", "Y", "B"])] * nalt
+        tail = (["N"] if use_n and rng.random() < 0.6 else [])
+        if tail and rng.random() < 0.4:
+            tail.append("M")                     # two consecutive nullable symbols after a body of variable length
+        tail += ["c"] if rng.random() < 0.3 else []
+        lead = [l] if rng.random() < 0.85 else []
+        for a, b in enumerate(bodies):
+            used.add(b)
+            rhs = lead + [b] + tail + ["';'"]
+            tr = [j for j, x in enumerate(rhs) if x in ("X", "Y", "B", "N", "M")]
+            rules.append(Rule("I", rhs, "i%d%s" % (i, "ab"[a]), rng.randrange(4), tr))
+        for x in ("N", "M"):
+            if x in tail:
+                used.add(x)
+    if "Y" in used:
+        ya = "yx" if rng.random() < 0.7 else None
+        rules.append(Rule("Y", ["X"], ya, 1 if ya else 0, [0]))
+        used.add("X")
+    if "X" in used:
+        rules.append(Rule("X", ["b", "c"], "xb", 1, [0, 1]))
+        if rng.random() < 0.4:
+            rules.append(Rule("X", ["b"], None, 0, [0]))
+    if "B" in used:
+        rules.append(Rule("B", ["b"], "b1", 1, []))
+        rules.append(Rule("B", ["b", "b"], "b2", 2, []))
+    if "N" in used:
+        rules.append(Rule("N", [], "ne", 0, []))
+        rules.append(Rule("N", ["n"], None, 0, [0]))
+    if "M" in used:
+        rules.append(Rule("M", [], "me", 0, []))
+        if rng.random() < 0.5:
+            rules.append(Rule("M", ["n"], "mn", 1, [0]))
+    g = Grammar(terms, rules)
+    by_lhs = {}
+    for r in rules:
+        by_lhs.setdefault(r.lhs, []).append(r)
+    tnames = [t for t, _ in terms]
+
+    def expand(r, sym):
+        if sym not in by_lhs:
+            return [sym]
+        out = []
+        for x in r.choice(by_lhs[sym]).rhs:
+            out += expand(r, x)
+        return out
+
+    def input_gen(r):
+        kinds = [expand(r, "I") for _ in range(r.randrange(1, 3))]
+        w = []
+        for _ in range(r.randrange(2, 6)):
+            w += r.choice(kinds) if r.random() < 0.8 else expand(r, "I")
+        if r.random() < 0.25:
+            w = edits(r, w, tnames, 1)
+        return w[:16]
+    g.input_gen = input_gen
+    return g
+
+
+def overlap_grammar(rng):
+    """Spans that overlap: over a one- or two-letter alphabet, a list of elements E, each an `A' at one of several
+    offsets, A : X N M with a body X of variable length whose last token may as well be the (nullable) N, followed
+    by a second nullable symbol.  The same dotted rules then sit in one Earley set with several origins, and set
+    cores recur along the list with different distance vectors."""
+    two = rng.random() < 0.5
+
+    def t():
+        return "a" if not two or rng.random() < 0.65 else "b"
+    terms = [("a", 97)] + ([("b", 98)] if two else [])
+    rules = []
+    if rng.random() < 0.6:
+        rules += [Rule("S", ["S", "E"], "l", 1, [0, 1]), Rule("S", ["E"], None, 0, [0])]
+    else:
+        rules += [Rule("S", ["E"], None, 0, [0]), Rule("S", ["E", "S"], "l", 1, [0, 1])]
+    ealts = [["A"], [t(), "A"], [t(), t(), "A"], ["A", t()], [t(), "A", t()]]
+    rng.shuffle(ealts)
+    for i, rhs in enumerate(ealts[:rng.randrange(2, 4)]):
+        rules.append(Rule("E", rhs, "e%d" % i, rng.randrange(3), [rhs.index("A")]))
+    tail = rng.choice([["N", "M"], ["N", "M"], ["N"], ["M", "N"], ["N", "N"]])
+    arhs = ["X"] + tail + ([t()] if rng.random() < 0.25 else [])
+    rules.append(Rule("A", arhs, "a", 1, [j for j, x in enumerate(arhs) if x in ("X", "N", "M")]))
+    xalts = [[t()], [t(), t()], ["Y", t()], [t(), "Y"]]
+    rng.shuffle(xalts)
+    nx = rng.randrange(2, 4)
+    for i, rhs in enumerate(xalts[:nx]):
+        rules.append(Rule("X", rhs, "x%d" % i, rng.randrange(3), [j for j, x in enumerate(rhs) if x == "Y"]))
+    if any("Y" in r for r in xalts[:nx]):
+        rules.append(Rule("Y", [t()], "y1", 1, []))
+        if rng.random() < 0.5:
+            rules.append(Rule("Y", [t()], "y2", 2, []))
+    rules.append(Rule("N", [t()], "n", 1, []))
+    rules.append(Rule("N", [], "ne" if rng.random() < 0.5 else None, 0, [] if True else None))
+    if "M" in tail:
+        rules.append(Rule("M", [], "me" if rng.random() < 0.5 else None, 0, []))
+        if rng.random() < 0.4:
+            rules.append(Rule("M", [t()], "m", 1, []))
+    return Grammar(terms, rules)
 
 
 def accepted_random_grammar(rng, strict=None, tries=200, **kw):
@@ -323,4 +447,13 @@ def inputs_for(rng, g, n_exhaustive_len, n_samples, maxlen):
                     add(edits(rng, s, terms, 2))
         elif terms:
             add([rng.choice(terms) for _ in range(rng.randrange(0, maxlen + 1))])
+    ig = getattr(g, "input_gen", None)
+    if ig is not None:
+        # the grammar's own generator (repeated fragments); these may be longer than maxlen (at most 16 tokens)
+        for _ in range(max(4, 3 * n_samples)):
+            w = ig(rng)
+            k = tuple(w)
+            if k not in seen and len(w) <= 16:
+                seen.add(k)
+                out.append(list(w))
     return out
